@@ -34,7 +34,8 @@ def mc_cfg(max_list, groups, invariant="NoStale", flags=None):
     f.update(flags or {})
     return ("SPECIFICATION Spec\nCONSTANTS\n" + MC_CONSTANTS +
             f"  MaxList = {max_list}\n  JFN = {f['JFN']}\n  CANON = {f['CANON']}\n"
-            f"  Groups = {'TRUE' if groups else 'FALSE'}\nSYMMETRY Symm\nINVARIANT {invariant}\n")
+            f"  Groups = {'TRUE' if groups else 'FALSE'}\n  CheckUpdates = {f.get('CheckUpdates', 'TRUE')}\n"
+            f"SYMMETRY Symm\nINVARIANT {invariant}\n")
 
 
 def run_model_check(out, wd, tier):
